@@ -47,8 +47,17 @@ var attrNames = []string{"title", "data-a", "data-b", "class", "style", "id", "a
 var tags = []string{"div", "span", "p", "section", "b"}
 var jsStatics = []string{"var a = ", "console.log(", "let s = 'single'; var b = ", "/* c */ var d = "}
 
-// bigText is one static run larger than 64 KiB (an inlined stylesheet or image would be).
-var bigText = strings.Repeat("0123456789abcdef ", 4200)
+// bigTexts are long static runs: one larger than 64 KiB (an inlined stylesheet or image would
+// be), and runs of a few KiB in scripts whose characters take two, three and four bytes, so
+// that any fixed-size chunking of a literal falls inside a character somewhere.
+var bigTexts = []string{
+	strings.Repeat("0123456789abcdef ", 4200),
+	strings.Repeat("日本語のテキスト、", 230),
+	"x" + strings.Repeat("日本語のテキスト、", 230),
+	strings.Repeat("Grüße aus Köln, où l'été est très doux. ", 220),
+	"ab" + strings.Repeat("emoji 😀 und 🎉 ", 300),
+	strings.Repeat("a", 4095) + "é" + strings.Repeat("b", 4095) + "日" + strings.Repeat("c", 100),
+}
 
 type gen struct{ r *rand.Rand }
 
@@ -56,7 +65,7 @@ func (g *gen) pick(s []string) string { return s[g.r.IntN(len(s))] }
 
 func (g *gen) leaf() item {
 	if g.r.IntN(30) == 0 {
-		return item{K: "text", Text: bigText}
+		return item{K: "text", Text: bigTexts[g.r.IntN(len(bigTexts))]}
 	}
 	switch g.r.IntN(10) {
 	case 9:
